@@ -501,6 +501,8 @@ class Frame:
         self.breaks: List[G] = []
         self.continues: List[G] = []
         self.continue_envs: List[Tuple[G, Dict[str, Any]]] = []
+        self._break_envs: List[list] = []
+        self._idx_obligations: Optional[list] = None     # (index, length) of every subscript evaluated inside a try/except IndexError body
         self.loop_stack: List[ast.AST] = []
         self.havoc_depth = 0
         self.cur_guard: G = TRUE
@@ -568,6 +570,8 @@ class Frame:
             return self.loop(st, env, guard)
         if isinstance(st, ast.Break):
             self.breaks.append(guard)
+            if self._break_envs:
+                self._break_envs[-1].append((guard, dict(env)))       # the state in which a havocked loop is left early
             return FALSE
         if isinstance(st, ast.Continue):
             self.continues.append(guard)
@@ -592,7 +596,43 @@ class Frame:
             return guard
         if isinstance(st, ast.Raise):
             return FALSE
+        if isinstance(st, ast.Try):
+            return self._try(st, env, guard)
         raise Unsupported(f"statement {type(st).__name__}")
+
+    def _try(self, st: ast.Try, env, guard: G) -> G:
+        """try: BODY except IndexError: HANDLER.  A subscript a[e] raises IndexError exactly when e >= len(a) or
+        e < -len(a); a negative e that is >= -len(a) does NOT raise: it counts from the end.  Statement k of BODY runs
+        when no earlier subscript raised and takes effect when none of its own did; HANDLER runs when some subscript
+        raised (it may not read what BODY assigned: that state is not modelled)."""
+        ok = (len(st.handlers) == 1 and not st.orelse and not st.finalbody and st.handlers[0].name is None and st.handlers[0].type is not None
+              and ast.unparse(st.handlers[0].type) == "IndexError" and all(isinstance(b, (ast.Assign, ast.Expr, ast.AugAssign, ast.If)) for b in st.body))
+        assigned = {n.id for b in st.body for n in ast.walk(b) if isinstance(n, ast.Name) and isinstance(n.ctx, ast.Store)}
+        reads_h = {n.id for b in st.handlers[0].body for n in ast.walk(b) if isinstance(n, ast.Name) and isinstance(n.ctx, ast.Load)} if ok else set()
+        if not ok or self._idx_obligations is not None or (assigned & reads_h):
+            raise Unsupported("statement Try (only `try: <simple statements> except IndexError: <handler independent of them>` is modelled)")
+        env_b = dict(env)
+        raised = FALSE
+        live_b = guard
+        for b in st.body:
+            self._idx_obligations = []
+            n_ev = len(self.events)
+            try:
+                live_b = self.stmt(b, env_b, g_and(live_b, g_not(raised)))
+                obl = list(self._idx_obligations)
+            finally:
+                self._idx_obligations = None
+            for idx, ln in obl:
+                raised = g_or(raised, canon_sign(idx.sub(ln), OPS[">="]), canon_sign(idx.add(ln), OPS["<"]))
+            for e_ in self.events[n_ev:]:
+                e_.guard = g_and(e_.guard, g_not(raised))       # the statement's effects happen only if none of its subscripts raised
+            if live_b.kind == "false":
+                break
+        env_h = dict(env)
+        live_h = self.block(st.handlers[0].body, env_h, g_and(guard, raised))
+        live_ok = g_and(live_b, g_not(raised)) if live_b.kind != "false" else live_b
+        self.merge(env, raised, env_h, live_h, env_b, live_ok)
+        return g_or(live_h, live_ok)
 
     def merge(self, env, c: G, env_t, live_t: G, env_f, live_f: G):
         if live_t.kind == "false" and live_f.kind == "false":
@@ -650,6 +690,7 @@ class Frame:
             env[n] = self.ev.fresh_sym(n)
         self.havoc_depth += 1
         self.loop_stack.append(st)
+        self._break_envs.append([])
         iter_guard = g_and(guard, g_atom(("iter", getattr(st, "lineno", 0))))
         benv = dict(env)
         try:
@@ -659,10 +700,28 @@ class Frame:
         finally:
             self.loop_stack.pop()
             self.havoc_depth -= 1
-        # values after the loop: unknown mixture of pre-loop and in-loop definitions
+            left_early = self._break_envs.pop()
+        # values after the loop when it runs to exhaustion: unknown mixture of pre-loop and in-loop definitions
         for n in sorted(assigned):
             env[n] = self.ev.fresh_sym(n + "@after")
         self.havocked = getattr(self, "havocked", set()) | assigned
+        if st.orelse:
+            # for / while ... else: the else block runs only when the loop was not left by `break`
+            self.block(st.orelse, env, guard)
+        if left_early:
+            # ... and when it was, the state is the one at that `break` (in terms of that iteration's values)
+            names = set(assigned)
+            for n_ in ast.walk(ast.Module(body=list(st.orelse), type_ignores=[])):
+                if isinstance(n_, ast.Name) and isinstance(n_.ctx, ast.Store):
+                    names.add(n_.id)
+            sels, rest = [], TRUE
+            for k_, (gb, benv_b) in enumerate(left_early):
+                a_ = g_atom(("left-by-break", getattr(st, "lineno", 0), k_, self.ev.fresh_sym("brk").key))
+                sels.append((g_and(rest, a_), benv_b))
+                rest = g_and(rest, g_not(a_))
+            for n in sorted(names):
+                cases = [(sg, be.get(n, Obj("undefined"))) for sg, be in sels] + [(rest, env.get(n, Obj("undefined")))]
+                env[n] = mk_pw(cases)
         return guard
 
     def assign(self, t, v, env, guard: G, st):
@@ -961,6 +1020,11 @@ class Frame:
         ev = self.ev
         if isinstance(idx, PW) or isinstance(base, PW):
             return lift(lambda b, i: self._sub_value(b, i), base, idx)
+        if self._idx_obligations is not None and isinstance(idx, Rat) and not idx.is_array():
+            try:
+                self._idx_obligations.append((idx, ev.length_of(base)))
+            except Unsupported:
+                raise Unsupported("subscript of a value of unknown length inside try/except IndexError")
         if isinstance(base, Vec):
             arr = base.kind == "point" and base.items and isinstance(base.items[0], Rat) and base.items[0].is_array()
             if arr:
